@@ -6,7 +6,7 @@ def _ic(v):
     return str(v) if v >= 0 else "(- %d)" % (-v)
 
 
-def emit_int(asserts, logic="ALL", produce_models=True, header=(), fresh_divmod=True):
+def emit_int(asserts, logic="ALL", produce_models=True, header=(), fresh_divmod=True, abstract_nonlinear=False):
     """Return SMT-LIB text asserting all boolean terms in `asserts` (Int encoding).
 
     fresh_divmod: floor division / modulus by constants are expressed with one shared pair of fresh
@@ -48,6 +48,14 @@ def emit_int(asserts, logic="ALL", produce_models=True, header=(), fresh_divmod=
             e = "(- %s %s)" % (a[0], a[1])
         elif op == "neg":
             e = "(- %s)" % a[0]
+        elif op == "mul" and abstract_nonlinear and t.args[0].op != "const" and t.args[1].op != "const":
+            # a product of two symbolic values is generalised to an arbitrary integer in its interval
+            nm = "p%d" % t.id
+            out.append("(declare-fun %s () Int)" % nm)
+            out.append("(assert (<= %s %s))" % (_ic(t.lo), nm))
+            out.append("(assert (<= %s %s))" % (nm, _ic(t.hi)))
+            names[t.id] = nm
+            continue
         elif op == "mul":
             e = "(* %s %s)" % (a[0], a[1])
         elif op in ("div", "mod") and fresh_divmod:
@@ -159,7 +167,7 @@ def emit_bv(asserts, produce_models=True):
         if t.isbool:
             if op in ("le", "lt", "eq"):
                 x, y = t.args
-                w = max(_need(x.lo, x.hi), _need(y.lo, y.hi))
+                w = max(width[x.id], width[y.id])
                 f = {"le": "bvsle", "lt": "bvslt", "eq": "="}[op]
                 e = "(%s %s %s)" % (f, arg(x, w), arg(y, w))
             elif op == "not":
@@ -177,7 +185,7 @@ def emit_bv(asserts, produce_models=True):
             names[t.id] = nm
             continue
         # numeric
-        ws = [_need(x.lo, x.hi) for x in t.args if not x.isbool]
+        ws = [width[x.id] for x in t.args if not x.isbool]
         w = max([_need(t.lo, t.hi)] + ws)
         if op == "add":
             w = max(w, max(ws) + 1)
